@@ -1,5 +1,5 @@
 (* C17/Run.v — evaluation of the model and of the APPNOTE builder on harness cases. *)
-From Relic Require Import Base.Prelude Base.Enc Base.Val Generated.C17_gen C17.Model.
+From Relic Require Import Base.Prelude Base.Enc Base.Val Generated.C17_gen C17.Model C17.Layout.
 
 Definition res_hdr {A} (r : result A) : list val :=
   match r with Ok _ => [VZ 0; VZ 0] | Err e => [VZ 1; VZ e] | Panic e => [VZ 2; VZ e] end.
@@ -131,10 +131,84 @@ Definition run_mangle (v : val) : val :=
   | _ => VL [VL (res_hdr res)]
   end.
 
+(* ------------------------------------------------------------------ layout-level writer (C17/Layout.v) *)
+Definition v_se (s : sp_ent) : val := VL [VB (se_name s); VZ (se_off s); VZ (se_csize s); VZ (se_usize s); VZ (se_crc s)].
+Definition v_views (o : option (list sp_ent)) : val :=
+  match o with Some l => VL [VZ 1; VL (map v_se l)] | None => VL [VZ 0] end.
+(* [0 name extra csize usize crc method mtime mdate usedesc] *)
+Definition vnfl (v : val) : nfl :=
+  mkNfl (vb (vnth 1 v)) (vb (vnth 2 v)) (vz (vnth 3 v)) (vz (vnth 4 v)) (vz (vnth 5 v)) (vz (vnth 6 v)) (vz (vnth 7 v)) (vz (vnth 8 v))
+        (vbool (vnth 9 v)).
+Definition lay_sources (v : val) : list (reader * result directory) :=
+  map (fun rv => let '(r, size) := vreader rv in (r, read_zip r size)) (vl v).
+(* AddFile(f) as the callers do it: f comes from Read of source k, GetTotalSize has stored the descriptor's CRC in f *)
+Definition lay_add (srcs : list (reader * result directory)) (k i : Z) : result wop :=
+  match nth_error srcs (Z.to_nat k) with
+  | Some (r, Ok d) =>
+      match nth_error (d_files d) (Z.to_nat i) with
+      | Some f => x <- total_size Random r 0 f ;; Ok (WAdd (with_crc f (s_crc (fst x))) (s_total (fst x)))
+      | None => Err 21
+      end
+  | Some (_, Err e) => Err e
+  | Some (_, Panic e) => Panic e
+  | None => Err 21
+  end.
+Fixpoint lay_ops (srcs : list (reader * result directory)) (ops : list val) : result (list wop) :=
+  match ops with
+  | [] => Ok []
+  | o :: rest =>
+      op <- (if vz (vnth 0 o) =? 0 then Ok (WNew (vnfl o)) else lay_add srcs (vz (vnth 1 o)) (vz (vnth 2 o))) ;;
+      t <- lay_ops srcs rest ;;
+      Ok (op :: t)
+  end.
+(* WriteDirectory(w, w, force) twice on the same Directory; what the APPNOTE reader sees in both outputs *)
+Definition lay_write (files : list cdent) (dirloc : Z) (force : bool) : list val :=
+  let w1 := write_directory_l files dirloc force in
+  let w2 := write_directory_l (snd w1) dirloc force in
+  [VZ dirloc; VB (fst (fst w1)); VB (snd (fst w1)); VB (fst (fst w2)); VB (snd (fst w2));
+   v_views (sp_read_tail dirloc (fst (fst w1) ++ snd (fst w1))); v_views (sp_read_tail dirloc (fst (fst w2) ++ snd (fst w2)));
+   v_views (sp_read_tail_py dirloc (fst (fst w1) ++ snd (fst w1)))].
+(* [5 sources ops force] : new(Directory); NewFile / AddFile ...; WriteDirectory twice *)
+Definition run_layout (v : val) : val :=
+  let srcs := lay_sources (vnth 0 v) in
+  let res := lay_ops srcs (vl (vnth 1 v)) in
+  match res with
+  | Ok ops =>
+      let st := wrun ops in
+      VL (VL (res_hdr res) :: lay_write (fst st) (snd st) (vbool (vnth 2 v)) ++ [VL (map v_se (fst (intended ops)))])
+  | _ => VL [VL (res_hdr res)]
+  end.
+(* [6 source deleteflags news force] : Read; Mangle (callback deletes per flag); Mangler.NewFile ...; MakePatch; second WriteDirectory *)
+Fixpoint lay_msrc (r : reader) (fs : list cdent) (del : list val) : result (list msrc) :=
+  match fs with
+  | [] => Ok []
+  | f :: rest =>
+      x <- total_size Random r 0 f ;;
+      t <- lay_msrc r rest (tl del) ;;
+      Ok (mkMs (with_crc f (s_crc (fst x))) (s_total (fst x)) (vbool (hd (VZ 0) del)) :: t)
+  end.
+Definition run_mangle_layout (v : val) : val :=
+  let '(r, size) := vreader (vnth 0 v) in
+  let res :=
+    d <- read_zip r size ;;
+    src <- lay_msrc r (d_files d) (vl (vnth 1 v)) ;;
+    m <- mangle_l src (d_dirloc d) ;;
+    Ok (m, src, d_dirloc d) in
+  match res with
+  | Ok (files, dl, cuts, src, srcdl) =>
+      let news := map (fun o => WNew (vnfl o)) (vl (vnth 2 v)) in
+      let st := wrun_from (files, dl) news in
+      VL (VL (res_hdr res) :: lay_write (fst st) (snd st) (vbool (vnth 3 v))
+          ++ [VL (map v_se (fst (intended (kept_ops src ++ news)))); VL (map (fun c => VL [VZ (fst c); VZ (snd c)]) cuts); VZ srcdl])
+  | _ => VL [VL (res_hdr res)]
+  end.
+
 Definition run (v : val) : val :=
   let k := vz (vnth 0 v) in
   if k =? 0 then run_read (vnth 1 v)
   else if k =? 2 then run_build (VL (tl (vl v)))
   else if k =? 3 then run_fresh (VL (tl (vl v)))
   else if k =? 4 then run_mangle (VL (tl (vl v)))
+  else if k =? 5 then run_layout (VL (tl (vl v)))
+  else if k =? 6 then run_mangle_layout (VL (tl (vl v)))
   else VL [].
